@@ -126,3 +126,57 @@ Theorem C05_nested_context_blocks_as_in_source_restore_the_store : forall n s,
   abs_store (exit_n n (enter_n n s)) = abs_store s.
 Proof. exact nested_context_blocks_restore. Qed.
 Print Assumptions C05_nested_context_blocks_as_in_source_restore_the_store.
+
+(* the hypotheses `wf_cells`, `wf_top` of the theorems about the regenerated storage layer hold in every state the accessors
+   and the context manager can reach from a fresh thread, through any sequence of calls with dictionary arguments *)
+Theorem C05_reachable_storage_states_are_well_formed : forall ops,
+  wf_state (state_after context_src ops (mktls None None None)) /\ wf_top (state_after context_src ops (mktls None None None)).
+Proof. exact reachable_states_are_well_formed. Qed.
+Print Assumptions C05_reachable_storage_states_are_well_formed.
+
+(* the wrapper that jaxtyped(typechecker=...)(fn) returns, AS REGENERATED FROM THE SOURCE on every run (gen/StorageSrc.v:
+   src_wrapped_fn, interpreted by model/SL.v), with everything it calls that is not a storage accessor an arbitrary function
+   `ext`: it is the transparent call when switched off, and otherwise bind -- push one context with the bound arguments -- run
+   wrapped_fn_impl -- pop one context, whatever wrapped_fn_impl returned or raised *)
+From JT Require Import proofs.SLWrapFacts.
+Theorem C05_decorated_call_wrapper_as_in_source : forall ext a k c f p h i s,
+  run_ext ext wrapped_src "wrapped_fn" [a; k; c; f; p; h; i] s = Some (wrapped_spec ext a k f s).
+Proof. exact wrapped_fn_as_in_source. Qed.
+Print Assumptions C05_decorated_call_wrapper_as_in_source.
+
+Theorem C05_checked_call_as_in_source_pushes_once_and_pops_once : forall ext a k s b s1 v s2 d s3,
+  ext "param_signature.bind" [a; k] s = (SRVal b, s1) ->
+  ext "bound.apply_defaults" [] s1 = (SRVal v, s2) ->
+  ext "bound.arguments" [] s2 = (SRVal (SVDict d), s3) ->
+  let s4 := with_stack s3 (Some (stack_or_nil s3 ++ [new_frame d])%list) in
+  abs_stack s4 = push_memo (abs_stack s3) (dA d) /\
+  forall r s5, ext "wrapped_fn_impl" [a; k; b; new_frame d] s4 = (r, s5) -> abs_stack s5 <> [] ->
+    exists s', checked_call ext a k s = (r, s') /\ abs_stack s' = pop_memo (abs_stack s5) /\
+               ps_path (abs_store s') = ps_path (abs_store s5) /\ ps_flat (abs_store s') = ps_flat (abs_store s5).
+Proof. exact checked_call_brackets. Qed.
+Print Assumptions C05_checked_call_as_in_source_pushes_once_and_pops_once.
+
+Theorem C05_decorated_call_as_in_source_keeps_the_stack_depth : forall ext,
+  (forall g l st, length (abs_stack (snd (ext g l st))) = length (abs_stack st)) ->
+  forall a k c f p h i s r s',
+  run_ext ext wrapped_src "wrapped_fn" [a; k; c; f; p; h; i] s = Some (r, s') ->
+  length (abs_stack s') = length (abs_stack s).
+Proof. exact wrapped_fn_stack_neutral. Qed.
+Print Assumptions C05_decorated_call_as_in_source_keeps_the_stack_depth.
+
+(* the old spelling jaxtyped(typechecker(fn)): PARTIAL.  Proved: when the wrapped function returns, or raises a BaseException that
+   is not an Exception, exactly one context is pushed before it and exactly one is popped after it.  Not proved (only run against
+   CPython by the correspondence check): the `except Exception as e:` path, whose handler reads the context to add a note. *)
+Theorem C05_old_style_call_as_in_source_brackets_partial : forall ext a k p3 p4 p5 p6 p7 p8 p9 p10 s b s1 v s2 d s3 r s5,
+  ext "signature.bind" [a; k] s = (SRVal b, s1) ->
+  ext "bound.apply_defaults" [] s1 = (SRVal v, s2) ->
+  ext "bound.arguments" [] s2 = (SRVal (SVDict d), s3) ->
+  let s4 := with_stack s3 (Some (stack_or_nil s3 ++ [new_frame d])%list) in
+  ext "fn" [a; k] s4 = (r, s5) ->
+  (exists w, r = SRVal w) \/ r = SRExn XBase ->
+  abs_stack s5 <> [] ->
+  exists s', run_ext ext wrapped_src "old_wrapped_fn" [a; k; p3; p4; p5; p6; p7; p8; p9; p10] s = Some (r, s') /\
+             abs_stack s' = pop_memo (abs_stack s5) /\
+             ps_path (abs_store s') = ps_path (abs_store s5) /\ ps_flat (abs_store s') = ps_flat (abs_store s5).
+Proof. exact old_wrapped_fn_brackets_partial. Qed.
+Print Assumptions C05_old_style_call_as_in_source_brackets_partial.
